@@ -29,6 +29,9 @@ import (
 type typeDictionary struct {
 	mu   sync.Mutex
 	dict map[Node]map[string]*Typedef
+	// run counts the Process calls made on the module set. The errors of a
+	// failed type resolution are only good for the run that found them.
+	run int
 	// identities contains a dictionary of resolved identities.
 	identities identityDictionary
 }
@@ -38,6 +41,20 @@ func newTypeDictionary() *typeDictionary {
 		dict:       map[Node]map[string]*Typedef{},
 		identities: identityDictionary{dict: map[string]resolvedIdentity{}},
 	}
+}
+
+// newRun tells d that a new Process call has started.
+func (d *typeDictionary) newRun() {
+	defer d.mu.Unlock()
+	d.mu.Lock()
+	d.run++
+}
+
+// currentRun returns the number of Process calls made so far.
+func (d *typeDictionary) currentRun() int {
+	defer d.mu.Unlock()
+	d.mu.Lock()
+	return d.run
 }
 
 // add adds an entry to the typeDictionary d.
@@ -190,10 +207,11 @@ func (t *Typedef) resolve(d *typeDictionary) []error {
 // resolve resolves Type t, as well as the underlying typedef for t.  If t
 // cannot be resolved then one or more errors are returned.
 func (t *Type) resolve(d *typeDictionary) (errs []error) {
-	if t.YangType != nil && !t.resolveFailed {
-		return nil
+	run := d.currentRun()
+	if t.YangType != nil && (len(t.resolveErrs) == 0 || t.resolveRun == run) {
+		return t.resolveErrs
 	}
-	defer func() { t.resolveFailed = len(errs) > 0 }()
+	defer func() { t.resolveErrs, t.resolveRun = errs, run }()
 
 	// If t.Name is a base type then td will not be nil, otherwise
 	// td will be nil and of type *Typedef.
@@ -439,7 +457,18 @@ check:
 	// so we have to check equality the hard way.
 looking:
 	for _, ut := range t.Type {
-		errs = append(errs, ut.resolve(d)...)
+		// Several members may report the same errors (e.g., those of a
+		// typedef they share); keep one copy, or the list doubles with
+		// every level of nested unions.
+	member:
+		for _, err := range ut.resolve(d) {
+			for _, have := range errs {
+				if have.Error() == err.Error() {
+					continue member
+				}
+			}
+			errs = append(errs, err)
+		}
 		if ut.YangType != nil {
 			for _, yt := range y.Type {
 				if ut.YangType.Equal(yt) {
